@@ -27,7 +27,7 @@ for c in CHECKS:
     })
 m = {
     'version': 1,
-    'setup_cmd': 'cd lean && lake build',
+    'setup_cmd': './check setup',
     'hooks': {
         'guard': 'REGIONS_VERIF',
         'enable': 'no source hooks are needed: checks import /repo\'s working tree in-process (editable install) and set REGIONS_VERIF=1 only for uniformity',
